@@ -369,6 +369,11 @@ def judge_sorted(obs, d, sd, ids, A, L, ang, names, st, sess, period, t, pre, ou
                 base = np.array(sorted(float(a) for a in set(st[e["station"]]["evse"]["rates"]) | {0}))
             ub = min(e["mx"], e["smax"], e["amp"])
             base = base[base >= e["lb"]]
+            # a level within a few ulps of the remaining need (a minimum that equals it, say) is in or out
+            # depending on the association order of the kWh -> A*periods conversion: not judged
+            if e["amp"] < min(e["mx"], e["smax"]) and np.any(np.abs(base - ub) <= 1e-12 * max(1.0, abs(ub))):
+                obs.boundary += 1
+                return
             lv[e["sid"]] = base[base <= ub]
         s = [0.0] * len(ids)
         pos = {e["sid"]: 0 for e in order}
